@@ -1885,6 +1885,7 @@ func c10For(r *Rec, prop string, alias map[string]string) {
 func runC10(r *Rec) {
 	r.Extra["rule"] = "a case = one op on the real keeper/msg server (delegate, undelegate, share transfer, slash, claim at expiry-1/expiry/expiry+1 by owner or stranger, claim-all, pool rewards, AllocateTokens with hand-placed vote records) or one real block; non-trivial when it reaches the behaviour under test (see histogram: ok/err per kind, slashed pools, matured claims, blocks whose proposer had a signing record); distinct by (op, arguments, outcome)"
 	c10Witnesses(r)
+	c10RestartStrand(r)
 	episodes, n, runs, blocks := 36, 110, 5, 24
 	if r.Tier == "thorough" {
 		episodes, n, runs, blocks = 400, 160, 40, 40
@@ -1904,4 +1905,82 @@ func runC10(r *Rec) {
 		c10Blocks(r, blocks, i, 3, 0)
 	}
 	_ = govtypes.ModuleName
+}
+
+// c10RestartStrand: a pending undelegation across a restart of the module's state (its own genesis export / import on the
+// live store). A and B undelegate, A's record matures and is claimed, the state is re-imported, then a third account
+// undelegates: B's pending record - owner, amount, expiry - is what it was. (What a SECOND new undelegation does after a
+// restart is the recorded finding C12/store-diff/multistaking/0x04:lost and is not judged here.)
+func c10RestartStrand(r *Rec) {
+	label := "pending undelegation across a restart of the module state"
+	r.Mark(label)
+	w := NewWorld(WorldOpts{NAcc: 6, NVal: 2, SudoAccs: []int{5}, Balance: c10Balance()})
+	ctx := w.KeeperCtx()
+	ms := mskeeper.NewMsgServerImpl(w.app.MultiStakingKeeper, w.app.BankKeeper, w.app.CustomGovKeeper, w.app.CustomStakingKeeper)
+	val := sdk.ValAddress(w.addrs[0]).String()
+	do := func(what string, f func(c sdk.Context) error) bool {
+		err := withCache(ctx, f)
+		r.Count(fmt.Sprintf("restart-strand:%s:%v", what, err == nil))
+		return err == nil
+	}
+	ok := do("pool", func(c sdk.Context) error {
+		_, e := ms.UpsertStakingPool(sdk.WrapSDKContext(c), mstypes.NewMsgUpsertStakingPool(w.addrs[0].String(), val, true, sdk.NewDecWithPrec(5, 1)))
+		return e
+	})
+	for _, a := range []int{2, 3, 4} {
+		a := a
+		ok = ok && do("delegate", func(c sdk.Context) error {
+			_, e := ms.Delegate(sdk.WrapSDKContext(c), mstypes.NewMsgDelegate(w.addrs[a].String(), val, sdk.NewCoins(sdk.NewInt64Coin("ukex", 1000000))))
+			return e
+		})
+	}
+	for _, a := range []int{2, 3} {
+		a := a
+		ok = ok && do("undelegate", func(c sdk.Context) error {
+			_, e := ms.Undelegate(sdk.WrapSDKContext(c), mstypes.NewMsgUndelegate(w.addrs[a].String(), val, sdk.NewCoins(sdk.NewInt64Coin("ukex", int64(100000*a)))))
+			return e
+		})
+	}
+	if !ok {
+		return
+	}
+	find := func(c sdk.Context, owner int) (mstypes.Undelegation, bool) {
+		for _, u := range w.app.MultiStakingKeeper.GetAllUndelegations(c) {
+			if u.Address == w.addrs[owner].String() {
+				return u, true
+			}
+		}
+		return mstypes.Undelegation{}, false
+	}
+	ua, okA := find(ctx, 2)
+	before, okB := find(ctx, 3)
+	if !okA || !okB {
+		r.Count("restart-strand:records-missing")
+		return
+	}
+	// A's record matures (B's too, B just does not claim); A claims
+	later := ctx.WithBlockTime(time.Unix(int64(ua.Expiry)+10, 0).UTC())
+	if err := withCache(later, func(c sdk.Context) error {
+		_, e := ms.ClaimUndelegation(sdk.WrapSDKContext(c), mstypes.NewMsgClaimUndelegation(w.addrs[2].String(), ua.Id))
+		return e
+	}); err != nil {
+		r.Count("restart-strand:claim-failed")
+		return
+	}
+	if f := w.ReimportModuleInPlace(later, mstypes.ModuleName, mstypes.ModuleName); f != nil {
+		r.Count("restart-strand:reimport-failed")
+		return
+	}
+	if err := withCache(later, func(c sdk.Context) error {
+		_, e := ms.Undelegate(sdk.WrapSDKContext(c), mstypes.NewMsgUndelegate(w.addrs[4].String(), val, sdk.NewCoins(sdk.NewInt64Coin("ukex", 77777))))
+		return e
+	}); err != nil {
+		r.Count("restart-strand:third-undelegate-failed")
+		return
+	}
+	after, okB2 := find(later, 3)
+	r.Case(label, true)
+	if !okB2 || after.String() != before.String() {
+		r.Fail("C10/restart/pending-undelegation-overwritten", fmt.Sprintf("%s: B's pending undelegation was %s; after the module's state went through its own genesis and a third account undelegated it is %s (found=%v)", label, before.String(), after.String(), okB2), nil)
+	}
 }
